@@ -679,9 +679,7 @@ def u_flow_safe_paths():
         except ValueError:
             c.prove("xpost:ValueError-only-for-a-path-edge-with-negative-lower-bound,-lower>upper-or-upper=0", z3.Exists([q], z3.And(q >= 0, q < n - 1, z3.Not(edge_ok(q)))), prop=P, kind="xpost")
             return
-        except IndexError:
-            c.prove("xpost:the-function-never-indexes-outside-the-path", False, prop=P, kind="xpost")       # reached only on a feasible path
-            return
+
         c.prove("post:normal-return-only-if-every-path-edge-has-0<=lower<=upper,-upper!=0", z3.ForAll([q], z3.Implies(z3.And(q >= 0, q < n - 1), edge_ok(q))), prop=P)
         ok = isinstance(out, list) and all(isinstance(x, SymSeq) for x in out)
         c.prove("post:the-result-is-a-list-of-edge-lists", z3.BoolVal(ok), prop=P)
